@@ -152,6 +152,9 @@ func (sig *Signature[S]) UnmarshalCBOR(data []byte) error {
 	if err != nil {
 		return errs.Wrap(err).WithMessage("failed to unmarshal ECDSA signature")
 	}
+	if dto == nil || utils.IsNil(dto.R) || utils.IsNil(dto.S) {
+		return signatures.ErrInvalidArgument.WithMessage("r/s missing in ECDSA signature data")
+	}
 	sig2, err := NewSignature(dto.R, dto.S, dto.V)
 	if err != nil {
 		return errs.Wrap(err).WithMessage("failed to create ECDSA signature from deserialized data")
